@@ -123,6 +123,13 @@ func (engC15) Gen(r *Rng, s *Script, idx int, tier string) {
 			s.Steps = append(s.Steps, Step{Op: "rowItems", Items: genItems(r, n, level, &ctr)})
 		}
 	}
+	tall := !valid && false
+	if r.Chance(1, 15) {
+		// far more lines than any block a renderer might write at once
+		tall = true
+		s.Config["tall_table"] = 1
+		s.Steps = append(s.Steps, Step{Op: "bulkRows", A: r.Range(66, 140), B: r.Range(1, ncol)})
+	}
 	if r.Chance(1, 12) {
 		// one cell far larger than any buffer a renderer might put in front of the writer
 		s.Config["huge_cell"] = 1
@@ -137,6 +144,9 @@ func (engC15) Gen(r *Rng, s *Script, idx int, tier string) {
 	// routes: every format at least once, text under several decorations
 	nr := r.Range(6, 10)
 	huge := s.Config["huge_cell"] == 1
+	if tall {
+		nr = 3
+	}
 	if huge {
 		nr = 3 // only the renderers that write field by field: the others make thousands of writes for such a cell
 	}
@@ -148,7 +158,16 @@ func (engC15) Gen(r *Rng, s *Script, idx int, tier string) {
 		if huge {
 			f = []int{FmtJSON, FmtCSV, FmtJSON}[i]
 		}
-		st := Step{Op: "render", A: f, B: []int{0, 1, 2, 3, 4, 5, 6, 8}[r.Intn(8)], C: []int{ViaPkg, ViaFresh, ViaFresh, ViaAuto, ViaReused, ViaAutoFn}[r.Intn(6)], D: r.Intn(16), E: r.Range(1, 99)}
+		if tall && !huge {
+			f = []int{FmtText, FmtMD, FmtCSV, FmtJSON, FmtText}[i%5]
+		}
+		st := Step{Op: "render", A: f, B: []int{0, 1, 2, 3, 4, 5, 6, 8}[r.Intn(8)], C: []int{ViaPkg, ViaFresh, ViaFresh, ViaAuto, ViaReused, ViaAutoFn}[r.Intn(6)], D: r.Intn(16) | r.Pick([]int{4, 1, 1, 1, 1})<<4, E: r.Range(1, 99)}
+		if tall {
+			// one wrapper for all faults of the route: every texttable/markdown Wrap
+			// registers one more measuring callback on the table, which over
+			// hundreds of faulted renders of a tall table would be quadratic
+			st.C = ViaReused
+		}
 		s.Steps = append(s.Steps, st)
 	}
 }
@@ -207,6 +226,7 @@ func (engC15) Exec(s *Script, keepLog bool) *Result {
 			for _, mode := range modes {
 				wr, sw := newSimWriter(st.D, nil)
 				sw.FaultAt, sw.Mode, sw.Frac = k, mode, pick(100, st.E)
+				sw.Err = faultErrors[pick(len(faultErrors), st.D>>4)]
 				if w.Log != nil {
 					w.Log.Add(fmt.Sprintf("fault k=%d mode=%s", k, faultNames[mode]))
 				}
